@@ -179,6 +179,15 @@ def gridInt : Grid Int := fun _ _ _ => some (cellInt, 110)
 
 def env : Env Int := { F := fnsInt, one := 1, grid := gridInt, headI := 0, headJ := 0, ord := .INPUT }
 
+/-- the same well under COMPORD TRACK and DEPTH -/
+def envTrack : Env Int := { env with ord := .TRACK }
+def envDepth : Env Int := { env with ord := .DEPTH }
+
+/-- a history without COMPDAT -/
+def opsNoCompdat : List (Op Int) :=
+  [.wpimult 2 ⟨none, none, none, some 2, some 3⟩, .endStep,
+   .welopen .SHUT ⟨some 1, some 1, some 3, none, none⟩, .endStep]
+
 /-- WPIMULT on completions 2..3, then WELOPEN SHUT on cell (1,1,3), then COMPDAT on layer 2. -/
 def ops : List (Op Int) :=
   [.wpimult 2 ⟨none, none, none, some 2, some 3⟩, .endStep,
